@@ -8,6 +8,10 @@
     * `pend w` is strictly increasing,
     * every attempted message is ≤ every pending message,
     * everything is below the bound `b` under which no message has been submitted yet.
+
+  Last part ("ALL REQUEST KINDS"): the same invariant for requests of all three kinds, over a ghost
+  labelling (submission index / library's own) of task queue, retry queue and request packets, and the
+  proof that the labelling matches the wire log packet by packet.
 -/
 import MqttVerif.Model.Retry
 
@@ -891,8 +895,29 @@ theorem step_inv {w : World} {b : Nat} (e : Ev) (h : Inv w b)
   | start =>
     simp only [step, nextBound]
     split
+    · exact h
+    · split
+      · exact h.of_fields rfl rfl rfl rfl
+      · exact h.of_fields rfl rfl rfl rfl
+  | waitElapsed =>
+    simp only [step, nextBound]
+    split
     · exact h.of_fields rfl rfl rfl rfl
     · exact h
+  | cancelCtx =>
+    simp only [step, nextBound]
+    split
+    · exact h
+    · split
+      · exact h.of_fields rfl rfl rfl rfl
+      · exact h.of_fields rfl rfl rfl rfl
+      · exact h.of_fields rfl rfl rfl rfl
+      · rename_i k _
+        apply progress_inv
+        exact ((h.of_fields (w' := { w with ctxCancelled := true, connReady := true }) rfl rfl rfl rfl).kill k).of_fields
+          rfl rfl rfl rfl
+      · exact h.of_fields rfl rfl rfl rfl
+      · exact h.of_fields rfl rfl rfl rfl
   | app r =>
     simp only [step]
     split
@@ -1941,7 +1966,29 @@ theorem step_inv3 {w : World} {b : Nat} (e : Ev) (h : Inv3 w b)
     simp only [step]
     split
     · exact hB
+    · split
+      · exact hB
+      · exact hB
+  | waitElapsed =>
+    simp only [step]
+    split
     · exact hB
+    · exact hB
+  | cancelCtx =>
+    simp only [step]
+    split
+    · exact hB
+    · split
+      · exact hB
+      · exact hB
+      · exact hB
+      · rename_i k _
+        refine (progress_inv3 (b := b) ⟨?_, ?_⟩).2
+        · exact ((hi.of_fields (w' := { w with ctxCancelled := true, connReady := true }) rfl rfl rfl rfl).kill k).of_fields
+            rfl rfl rfl rfl
+        · exact BInv.kill (w := { w with ctxCancelled := true, connReady := true }) hB k
+      · exact hB
+      · exact hB
   | app r =>
     simp only [step]
     split
@@ -2089,5 +2136,1392 @@ theorem delivered_sorted (s : Script) (hi : Script.Increasing s) (hs : Fault.sil
     (exec s).broker.delivered.Pairwise (· ≤ ·) := by
   obtain ⟨b, h⟩ := foldl_inv3 s.evs (init s) 0 (init_inv3 s hs) hi (fun _ _ => Nat.zero_le _) hv
   exact h.2.2.2.2.1
+
+/-! ## ALL REQUEST KINDS (publish, subscribe, unsubscribe): a ghost labelling of the run
+
+  The wire log `Conn.pkts` does not say on whose behalf a SUBSCRIBE packet was written: the
+  application's Subscribe request, or the library's own re-subscription pass (`resubLoop`, one filter
+  per packet). The ghost below replays the run next to the model (same control skeleton; the worlds are
+  those of the model, nothing of the model is changed) and carries a label for every element of
+  `taskQ` and `retryQ` and for every request packet attempted: `some i` for the application's `i`-th
+  request, `none` for the library's own.
+
+  * `gatt_sorted`: the labels `some i` of the attempted request packets are non-decreasing (`Core`
+    with the ghost in place of `att` / `pend`), for every script;
+  * `gExec_wire`: the labels match the wire log packet by packet (`All2 (LabKey …)`): the ghost is not
+    an independent story but an annotation of `Conn.pkts`.
+-/
+
+/-- label of a task / retry-queue entry / request packet: `some i` — it belongs to the application's
+    `i`-th request (counting every `.app` event of the script from 0); `none` — the library's own
+    (re-subscription of one established filter, `Retry`, `Disconnect`) -/
+abbrev Lab := Option Nat
+
+/-- the content of a request, QoS aside -/
+inductive Key
+  | pub (m : Nat)
+  | sub (subs : List Subscription)
+  | unsub (ts : List Bytes)
+  deriving DecidableEq, Repr
+
+def reqKey : Req → Key
+  | .pub m _ => .pub m
+  | .sub subs => .sub subs
+  | .unsub ts => .unsub ts
+
+def entryKey : Entry → Key
+  | .rePublish m _ => .pub m
+  | .rePubRel m => .pub m
+  | .qPub m _ => .pub m
+  | .reSub subs => .sub subs
+  | .qSub subs => .sub subs
+  | .reUnsub ts => .unsub ts
+  | .qUnsub ts => .unsub ts
+
+/-- PUBLISH, SUBSCRIBE and UNSUBSCRIBE are the packets that carry a request -/
+def pktKey : Pkt → Option Key
+  | .publish m _ _ _ => some (.pub m)
+  | .subscribe _ subs => some (.sub subs)
+  | .unsubscribe _ ts => some (.unsub ts)
+  | _ => none
+
+/-- the ghost state that accompanies a world -/
+structure Gh where
+  tq : List Lab := []      -- labels of `taskQ`, position by position
+  rq : List Lab := []      -- labels of `retryQ`, position by position
+  out : List Lab := []     -- labels of the request packets attempted so far, in wire order
+  deriving Repr
+
+def apps (l : List Lab) : List Nat := l.filterMap id
+
+/-- `l` appended when the queue has grown -/
+def extLab (cur : List Lab) (l : Lab) (grown : Bool) : List Lab := if grown then cur ++ [l] else cur
+
+def isRel : Entry → Bool
+  | .rePubRel _ => true
+  | _ => false
+
+/-- ghost of `retryLoop` (started on an emptied queue): labels of the resulting retry queue and of the
+    request packets attempted. `ls` labels `old`. -/
+def gRetryLoop (w : World) (k : Nat) : List Entry → List Lab → List Lab × List Lab
+  | [], _ => ([], [])
+  | e :: rest, ls =>
+    if w.stuck then ([], [])
+    else
+      let l := ls.headD none
+      let r := runEntry { w with totalRetries := w.totalRetries + 1 } k e
+      -- whatever the entry has put into the (empty) queue is its own handle
+      let cur := extLab [] l (! r.1.retryQ.isEmpty)
+      let em := if isRel e then [] else [l]
+      match r.2 with
+      | .fail (some _) _ => (cur ++ [l] ++ ls.tail, em)
+      | .stuck => (cur, em)
+      | _ =>
+        if r.1.closeAfterTask then (cur ++ ls.tail, em)
+        else ((gRetryLoop r.1 k rest ls.tail).1, em ++ (gRetryLoop r.1 k rest ls.tail).2)
+
+/-- ghost of `resubLoop`: everything it transmits or queues is the library's own -/
+def gResubLoop (w : World) (k : Nat) : List Subscription → List Lab → List Lab × List Lab
+  | [], cur => (cur, [])
+  | s :: rest, cur =>
+    if w.stuck then (cur, [])
+    else
+      let w' := subscribeTask w k [s]
+      let em := if w.retryQ.isEmpty then [none] else []
+      let g := gResubLoop w' k rest (extLab cur none (w'.retryQ.length > w.retryQ.length))
+      (g.1, em ++ g.2)
+
+/-- ghost of `runTask` for a task labelled `l`; `cur` labels `w.retryQ` -/
+def gRunTask (w : World) (k : Nat) (t : Task) (l : Lab) (cur : List Lab) : List Lab × List Lab :=
+  match t with
+  | .req _ =>
+    -- transmitted at once (a failed attempt leaves its handle), queued behind the others, or dropped
+    (extLab cur l ((runTask w k t).retryQ.length > w.retryQ.length), if w.retryQ.isEmpty then [l] else [])
+  | .resubscribe => gResubLoop { w with subEst := [] } k w.subEst cur
+  | .retry => gRetryLoop { w with retryQ := [] } k w.retryQ cur
+  | .disconnect => (cur, [])
+
+/-- ghost of `runTasks` (same control skeleton, the worlds are those of the model) -/
+def gRunTasks : Nat → World → Gh → Gh
+  | 0, _, g => g
+  | fuel + 1, w, g =>
+    if ¬ w.goroutine ∨ w.stuck then g
+    else
+      if ¬ w.gConnected ∧ ¬ w.connReady then g
+      else
+        let w := { w with gConnected := true }
+        match w.taskQ, w.cli with
+        | [], _ => g
+        | _, none => g
+        | t :: rest, some k =>
+          let w1 := { w with taskQ := rest, totalTasks := w.totalTasks + 1 }
+          let r := gRunTask w1 k t (g.tq.headD none) g.rq
+          let g' : Gh := { tq := g.tq.tail, rq := r.1, out := g.out ++ r.2 }
+          let w2 := runTask w1 k t
+          if w2.stuck then g'
+          else
+            let w3 := if w2.closeAfterTask then { kill w2 k with gConnected := false, closeAfterTask := false } else w2
+            gRunTasks fuel w3 g'
+
+def gProgress (w : World) (g : Gh) : Gh := gRunTasks (w.taskQ.length + 1) w g
+
+/-- the head of the `.connackOk` case of `step`: CONNACK accepted, inbound messages served -/
+def connackMid (w : World) (sp : Bool) (inbound : List (Nat × Nat)) (k : Nat) : World :=
+  let c := getConn w k
+  let w := setConn w k { c with connected := true }
+  let w := { w with broker := if sp then w.broker else w.broker.clearSession }
+  let w := inbound.foldl (fun w (mq : Nat × Nat) => deliverInbound w k mq.1 mq.2) w
+  { w with connReady := true, waitExp := 0,
+           connectReturned := if w.connectReturned.isNone then some sp else w.connectReturned }
+
+/-- the tail of the `.connackOk` case of `step`: `Resubscribe` / `Retry` are pushed -/
+def connackPre (w : World) (sp : Bool) (k : Nat) : World :=
+  let w := if w.initialized ∧ (¬ sp ∨ w.cfg.always) ∧ ¬ w.stopped then pushTask w .resubscribe else w
+  let w := if w.stopped then w else pushTask w .retry
+  { w with initialized := true, phase := if w.stopped then .exited else .up k }
+
+/-- the world on which `step w e` calls `progress` (`none`: the task goroutine is not given a turn).
+    A copy of the corresponding sub-terms of `step`, tied to it by `step_pre`. -/
+def preProgress (w : World) : Ev → Option World
+  | .app r => if w.stopped then none else some (pushTask { w with accepted := w.accepted ++ [r] } (.req r))
+  | .cancelCtx =>
+    if w.ctxCancelled ∨ w.connectReturned.isSome then none
+    else match w.phase with
+      | .connackGate k =>
+        some { kill { w with ctxCancelled := true, connReady := true } k with phase := .exited, connectErr := true }
+      | _ => none
+  | .connackOk sp inbound =>
+    match w.phase with
+    | .connackGate k => some (connackPre (connackMid w sp inbound k) sp k)
+    | _ => none
+  | .connackRefused =>
+    match w.phase with
+    | .connackGate k => some (connectFailed w k)
+    | _ => none
+  | .connackNever =>
+    match w.phase with
+    | .connackGate k => if w.cfg.connectTimeout then some (connectFailed w k) else none
+    | _ => none
+  | .peerClose =>
+    match w.phase with
+    | .up k => some (kill w k)
+    | _ => none
+  | .disconnect => if w.stopped then none else some { pushTask w .disconnect with stopped := true }
+  | _ => none
+
+/-- ghost of `step`; `n` is the number of `.app` events before this one. Tasks pushed by the event
+    are the application's request `n` (`.app`) or the library's (`Resubscribe`, `Retry`, `Disconnect`). -/
+def evLab (n : Nat) : Ev → Lab
+  | .app _ => some n
+  | _ => none
+
+def gStep (w : World) (g : Gh) (n : Nat) (e : Ev) : Gh :=
+  match preProgress w e with
+  | none => g
+  | some w1 => gProgress w1 { g with tq := g.tq ++ List.replicate (w1.taskQ.length - w.taskQ.length) (evLab n e) }
+
+def nextIdx (n : Nat) : Ev → Nat
+  | .app _ => n + 1
+  | _ => n
+
+def gRun : List Ev → World → Gh → Nat → Gh
+  | [], _, g, _ => g
+  | e :: rest, w, g, n => gRun rest (step w e) (gStep w g n e) (nextIdx n e)
+
+/-- the ghost of the whole run -/
+def gExec (s : Script) : Gh := gRun s.evs (init s) {} 0
+
+def appReqs (evs : List Ev) : List Req := evs.filterMap (fun e => match e with | .app r => some r | _ => none)
+
+/-! ### frame facts without reference to the wire -/
+
+/-- what running one retry-queue entry (or first-transmission closure) with key `κ` does to the queues -/
+structure EntryG (w w' : World) (o : Outcome) (κ : Key) : Prop where
+  fr : Fr1 w w'
+  qfail : ∀ h err, o = .fail (some h) err → entryKey h = κ ∧ w'.retryQ = w.retryQ
+  q : (w'.retryQ = w.retryQ ∧ w'.closeAfterTask = w.closeAfterTask) ∨
+      (w'.closeAfterTask = true ∧ ∃ h, w'.retryQ = w.retryQ ++ [h] ∧ entryKey h = κ)
+
+theorem absorb_g (w0 w : World) (o : Outcome) (κ : Key) (hfr : Fr w0 w)
+    (hh : ∀ h e, o = .fail (some h) e → entryKey h = κ) : EntryG w0 (absorb w o) .done κ := by
+  unfold absorb
+  split
+  · exact ⟨hfr.fr1, by simp, .inl ⟨hfr.retryQ, hfr.caf⟩⟩
+  · exact ⟨hfr.fr1, by simp, .inl ⟨hfr.retryQ, hfr.caf⟩⟩
+  · exact ⟨hfr.fr1, by simp, .inl ⟨hfr.retryQ, hfr.caf⟩⟩
+  · rename_i h e
+    refine ⟨⟨hfr.taskQ, hfr.cli, hfr.len⟩, by simp, .inr ⟨rfl, h, ?_, hh h e rfl⟩⟩
+    simp [hfr.retryQ]
+
+theorem relAttempt_key (w : World) (k m id : Nat) (h : Entry) (e : ErrKind) :
+    (relAttempt w k m id).2 = .fail (some h) e → entryKey h = .pub m := by
+  intro hh; rw [relAttempt_handle w k m id h e hh]; rfl
+
+theorem pubAttempt_key (w : World) (k m qos : Nat) (dup : Bool) (h : Entry) (e : ErrKind) :
+    (pubAttempt w k m qos dup).2 = .fail (some h) e → entryKey h = .pub m := by
+  rw [pubAttempt_eq]
+  simp only
+  split
+  · split
+    · exact relAttempt_key _ _ _ _ _ _
+    · split <;> simp
+  · simp
+  · split <;> simp
+    intro h1 _; rw [← h1]; rfl
+
+theorem subAttempt_key (w : World) (k : Nat) (subs) (h : Entry) (e : ErrKind) :
+    (subAttempt w k subs).2 = .fail (some h) e → entryKey h = .sub subs := by
+  rw [subAttempt_eq]
+  simp only
+  split <;> simp
+  intro h1 _; rw [← h1]; rfl
+
+theorem unsubAttempt_key (w : World) (k : Nat) (ts) (h : Entry) (e : ErrKind) :
+    (unsubAttempt w k ts).2 = .fail (some h) e → entryKey h = .unsub ts := by
+  rw [unsubAttempt_eq]
+  simp only
+  split <;> simp
+  intro h1 _; rw [← h1]; rfl
+
+theorem firstPub_g (w : World) (k m qos : Nat) : EntryG w (firstPub w k m qos) .done (.pub m) :=
+  absorb_g w _ _ _ (pubAttempt_fr w k m qos false) (pubAttempt_key w k m qos false)
+
+theorem firstSub_g (w : World) (k : Nat) (subs) : EntryG w (firstSub w k subs) .done (.sub subs) :=
+  absorb_g w _ _ _ (subAttempt_fr w k subs) (subAttempt_key w k subs)
+
+theorem firstUnsub_g (w : World) (k : Nat) (ts) : EntryG w (firstUnsub w k ts) .done (.unsub ts) :=
+  absorb_g w _ _ _ (unsubAttempt_fr w k ts) (unsubAttempt_key w k ts)
+
+theorem EntryG.ofFr {w w' : World} {o : Outcome} {κ : Key} (hfr : Fr w w')
+    (hh : ∀ h e, o = .fail (some h) e → entryKey h = κ) : EntryG w w' o κ :=
+  ⟨hfr.fr1, fun h e he => ⟨hh h e he, hfr.retryQ⟩, .inl ⟨hfr.retryQ, hfr.caf⟩⟩
+
+theorem runEntry_g (w : World) (k : Nat) (e : Entry) :
+    EntryG w (runEntry w k e).1 (runEntry w k e).2 (entryKey e) := by
+  cases e with
+  | qPub m qos => exact firstPub_g w k m qos
+  | qSub subs => exact firstSub_g w k subs
+  | qUnsub ts => exact firstUnsub_g w k ts
+  | rePublish m qos => exact .ofFr (pubAttempt_fr w k m qos true) (pubAttempt_key w k m qos true)
+  | rePubRel m => exact .ofFr (relAttempt_fr w k m _) (relAttempt_key w k m _)
+  | reSub subs => exact .ofFr (subAttempt_fr w k subs) (subAttempt_key w k subs)
+  | reUnsub ts => exact .ofFr (unsubAttempt_fr w k ts) (unsubAttempt_key w k ts)
+
+/-! ### the order invariant on the ghost -/
+
+@[simp] theorem apps_nil : apps [] = [] := rfl
+theorem apps_cons (l : Lab) (ls : List Lab) : apps (l :: ls) = l.toList ++ apps ls := by
+  cases l <;> simp [apps]
+theorem apps_append (a b : List Lab) : apps (a ++ b) = apps a ++ apps b := by simp [apps]
+theorem apps_single (l : Lab) : apps [l] = l.toList := by rw [apps_cons]; simp
+
+theorem Core.attemptLab {A P b} (l : Lab) (h : Core A (l.toList ++ P) b) :
+    Core (A ++ l.toList) (l.toList ++ P) b := by
+  cases l with
+  | none => simpa using h
+  | some i => exact Core.attempt h
+
+theorem Core.mono {A P b b'} (h : Core A P b) (hb : b ≤ b') : Core A P b' :=
+  ⟨h.attLe, h.pendLt, h.le, fun a ha => Nat.lt_of_lt_of_le (h.attB a ha) hb,
+    fun a ha => Nat.lt_of_lt_of_le (h.pendB a ha) hb⟩
+
+theorem extLab_false (cur : List Lab) (l : Lab) : extLab cur l false = cur := rfl
+theorem extLab_true (cur : List Lab) (l : Lab) : extLab cur l true = cur ++ [l] := rfl
+
+theorem gRetryLoop_cons (w : World) (k : Nat) (e : Entry) (rest : List Entry) (ls : List Lab) :
+    gRetryLoop w k (e :: rest) ls =
+      if w.stuck then ([], [])
+      else
+        let l := ls.headD none
+        let r := runEntry { w with totalRetries := w.totalRetries + 1 } k e
+        let cur := extLab [] l (! r.1.retryQ.isEmpty)
+        let em := if isRel e then [] else [l]
+        match r.2 with
+        | .fail (some _) _ => (cur ++ [l] ++ ls.tail, em)
+        | .stuck => (cur, em)
+        | _ =>
+          if r.1.closeAfterTask then (cur ++ ls.tail, em)
+          else ((gRetryLoop r.1 k rest ls.tail).1, em ++ (gRetryLoop r.1 k rest ls.tail).2) := by
+  rw [gRetryLoop]
+  try rfl
+
+theorem gRetryLoop_core (k b : Nat) (T : List Nat) : ∀ (old : List Entry) (w : World) (ls : List Lab)
+    (A : List Nat), ls.length = old.length → w.retryQ = [] → Core A (apps ls ++ T) b →
+    Fr1 w (retryLoop w k old) ∧
+    Core (A ++ apps (gRetryLoop w k old ls).2) (apps (gRetryLoop w k old ls).1 ++ T) b ∧
+    (gRetryLoop w k old ls).1.length = (retryLoop w k old).retryQ.length
+  | [], w, ls, A, hl, hq, hc => by
+    have : ls = [] := by simpa using hl
+    subst this
+    simp only [retryLoop, gRetryLoop, hq]
+    exact ⟨Fr1.rfl' w, by simpa using hc, rfl⟩
+  | e :: rest, w, ls, A, hl, hq, hc => by
+    obtain ⟨l, ls', rfl⟩ : ∃ l ls', ls = l :: ls' := by
+      cases ls with
+      | nil => simp at hl
+      | cons l ls' => exact ⟨l, ls', rfl⟩
+    have hl' : ls'.length = rest.length := by simpa using hl
+    rw [retryLoop_cons, gRetryLoop_cons]
+    split
+    · refine ⟨Fr1.rfl' w, ?_, by simp [hq]⟩
+      simp only [apps_nil, List.append_nil, List.nil_append]
+      exact hc.sub (by simp)
+    · have hs := runEntry_g { w with totalRetries := w.totalRetries + 1 } k e
+      generalize runEntry { w with totalRetries := w.totalRetries + 1 } k e = r at hs
+      obtain ⟨w2, o⟩ := r
+      simp only [List.headD_cons, List.tail_cons] at hs ⊢
+      have hfr : Fr1 w w2 := Fr1.trans (b := { w with totalRetries := w.totalRetries + 1 }) ⟨rfl, rfl, rfl⟩ hs.fr
+      rw [apps_cons, List.append_assoc] at hc
+      have hc2 : Core (A ++ apps (if isRel e then [] else [l])) (l.toList ++ (apps ls' ++ T)) b := by
+        split
+        · simpa using hc
+        · rw [apps_single]; exact hc.attemptLab
+      generalize (if isRel e then [] else [l]) = em at hc2
+      -- the queue after the entry: still empty, or the entry's own handle
+      have hqq : (w2.retryQ = [] ∧ w2.closeAfterTask = w.closeAfterTask ∧ extLab [] l (! w2.retryQ.isEmpty) = []) ∨
+          (w2.closeAfterTask = true ∧ w2.retryQ.length = 1 ∧ extLab [] l (! w2.retryQ.isEmpty) = [l]) := by
+        rcases hs.q with ⟨h1, h2⟩ | ⟨hcaf, h, h1, _⟩
+        · left
+          have : w2.retryQ = [] := by rw [h1]; exact hq
+          exact ⟨this, h2, by rw [this]; rfl⟩
+        · right
+          have : w2.retryQ = [h] := by rw [h1]; show w.retryQ ++ [h] = [h]; rw [hq]; rfl
+          exact ⟨hcaf, by rw [this]; rfl, by rw [this]; rfl⟩
+      cases o with
+      | stuck =>
+        refine ⟨hfr, ?_, ?_⟩
+        · rcases hqq with ⟨_, _, h0⟩ | ⟨_, _, h0⟩ <;> rw [h0]
+          · exact hc2.sub (by simp)
+          · rw [apps_single]; exact hc2.sub (by simp)
+        · rcases hqq with ⟨h1, _, h0⟩ | ⟨_, h1, h0⟩ <;> rw [h0, h1] <;> rfl
+      | fail ho err =>
+        cases ho with
+        | some h =>
+          have hh := (hs.qfail h err rfl).2
+          have hw2 : w2.retryQ = [] := by rw [hh]; exact hq
+          refine ⟨⟨hfr.taskQ, hfr.cli, hfr.len⟩, ?_, ?_⟩
+          · simp only [hw2, List.isEmpty_nil, Bool.not_true, extLab_false, List.nil_append]
+            rw [apps_append, apps_single, List.append_assoc]; exact hc2
+          · simp [hw2, extLab_false, hl']
+        | none =>
+          simp only
+          split
+          · refine ⟨⟨hfr.taskQ, hfr.cli, hfr.len⟩, ?_, ?_⟩
+            · rcases hqq with ⟨_, _, h0⟩ | ⟨_, _, h0⟩ <;> rw [h0]
+              · exact hc2.sub (by simp)
+              · rw [apps_append, apps_single, List.append_assoc]; exact hc2
+            · rcases hqq with ⟨h1, _, h0⟩ | ⟨_, h1, h0⟩ <;> rw [h0] <;> simp only [List.length_append, List.length_cons, List.length_nil, h1, hl'] <;> omega
+          · rename_i hcaf
+            have h0 : w2.retryQ = [] := by
+              rcases hqq with ⟨h0, _⟩ | ⟨h1, _⟩
+              · exact h0
+              · exact absurd h1 hcaf
+            have ih := gRetryLoop_core k b T rest w2 ls' (A ++ apps em) hl' h0 (hc2.sub (by simp))
+            refine ⟨hfr.trans ih.1, ?_, ih.2.2⟩
+            rw [apps_append, ← List.append_assoc]; exact ih.2.1
+      | done =>
+        simp only
+        split
+        · refine ⟨⟨hfr.taskQ, hfr.cli, hfr.len⟩, ?_, ?_⟩
+          · rcases hqq with ⟨_, _, h0⟩ | ⟨_, _, h0⟩ <;> rw [h0]
+            · exact hc2.sub (by simp)
+            · rw [apps_append, apps_single, List.append_assoc]; exact hc2
+          · rcases hqq with ⟨h1, _, h0⟩ | ⟨_, h1, h0⟩ <;> rw [h0] <;> simp only [List.length_append, List.length_cons, List.length_nil, h1, hl'] <;> omega
+        · rename_i hcaf
+          have h0 : w2.retryQ = [] := by
+            rcases hqq with ⟨h0, _⟩ | ⟨h1, _⟩
+            · exact h0
+            · exact absurd h1 hcaf
+          have ih := gRetryLoop_core k b T rest w2 ls' (A ++ apps em) hl' h0 (hc2.sub (by simp))
+          refine ⟨hfr.trans ih.1, ?_, ih.2.2⟩
+          rw [apps_append, ← List.append_assoc]; exact ih.2.1
+
+/-- a request task (or one step of `Resubscribe`) with key `κ`: the queue is unchanged or has one
+    more entry, of that key, at its end -/
+structure Grow1 (w w' : World) (κ : Key) : Prop where
+  fr : Fr1 w w'
+  q : w'.retryQ = w.retryQ ∨ ∃ x, w'.retryQ = w.retryQ ++ [x] ∧ entryKey x = κ
+
+theorem EntryG.grow1 {w w' : World} {o : Outcome} {κ : Key} (h : EntryG w w' o κ) : Grow1 w w' κ := by
+  refine ⟨h.fr, ?_⟩
+  rcases h.q with ⟨h1, _⟩ | ⟨_, x, h1, h2⟩
+  · exact .inl h1
+  · exact .inr ⟨x, h1, h2⟩
+
+theorem subscribeTask_g (w : World) (k : Nat) (subs) : Grow1 w (subscribeTask w k subs) (.sub subs) := by
+  unfold subscribeTask
+  simp only
+  split
+  · have h := (firstSub_g { w with subEst := applySubs w.subEst subs } k subs).grow1
+    exact ⟨⟨h.fr.taskQ, h.fr.cli, h.fr.len⟩, h.q⟩
+  · exact ⟨⟨rfl, rfl, rfl⟩, .inr ⟨_, rfl, rfl⟩⟩
+
+theorem runTask_req_g (w : World) (k : Nat) (r : Req) : Grow1 w (runTask w k (.req r)) (reqKey r) := by
+  cases r with
+  | pub m qos =>
+    simp only [runTask]
+    split
+    · exact (firstPub_g w k m qos).grow1
+    · split
+      · exact ⟨⟨rfl, rfl, rfl⟩, .inr ⟨_, rfl, rfl⟩⟩
+      · exact ⟨Fr1.rfl' w, .inl rfl⟩
+  | sub subs => exact subscribeTask_g w k subs
+  | unsub ts =>
+    simp only [runTask]
+    split
+    · have h := (firstUnsub_g { w with subEst := applyUnsubs w.subEst ts } k ts).grow1
+      exact ⟨⟨h.fr.taskQ, h.fr.cli, h.fr.len⟩, h.q⟩
+    · exact ⟨⟨rfl, rfl, rfl⟩, .inr ⟨_, rfl, rfl⟩⟩
+
+theorem Grow1.extLab {w w' : World} {κ : Key} (h : Grow1 w w' κ) (cur : List Lab) (l : Lab) :
+    (w'.retryQ = w.retryQ ∧ extLab cur l (w'.retryQ.length > w.retryQ.length) = cur) ∨
+    ((∃ x, w'.retryQ = w.retryQ ++ [x] ∧ entryKey x = κ) ∧
+      extLab cur l (w'.retryQ.length > w.retryQ.length) = cur ++ [l]) := by
+  rcases h.q with h1 | ⟨x, h1, h2⟩
+  · left; refine ⟨h1, ?_⟩; rw [h1]; simp [C03.extLab]
+  · right; refine ⟨⟨x, h1, h2⟩, ?_⟩; rw [h1]; simp [C03.extLab]
+
+theorem gResubLoop_spec (k : Nat) : ∀ (l : List Subscription) (w : World) (cur : List Lab),
+    cur.length = w.retryQ.length →
+    Fr1 w (resubLoop w k l) ∧ apps (gResubLoop w k l cur).1 = apps cur ∧
+    apps (gResubLoop w k l cur).2 = [] ∧
+    (gResubLoop w k l cur).1.length = (resubLoop w k l).retryQ.length
+  | [], w, cur, hlen => ⟨Fr1.rfl' w, rfl, rfl, hlen⟩
+  | s :: rest, w, cur, hlen => by
+    unfold resubLoop gResubLoop
+    split
+    · exact ⟨Fr1.rfl' w, rfl, rfl, hlen⟩
+    · have hg := subscribeTask_g w k [s]
+      have he := hg.extLab cur none
+      simp only
+      generalize C03.extLab cur none (decide ((subscribeTask w k [s]).retryQ.length > w.retryQ.length)) = cur' at he
+      have hlen' : cur'.length = (subscribeTask w k [s]).retryQ.length := by
+        rcases he with ⟨h1, h2⟩ | ⟨⟨x, h1, _⟩, h2⟩
+        · rw [h2, h1]; exact hlen
+        · rw [h2, h1]; simp [hlen]
+      have hap : apps cur' = apps cur := by
+        rcases he with ⟨_, h2⟩ | ⟨_, h2⟩
+        · rw [h2]
+        · rw [h2, apps_append]; simp [apps]
+      have ih := gResubLoop_spec k rest (subscribeTask w k [s]) cur' hlen'
+      refine ⟨hg.fr.trans ih.1, ih.2.1.trans hap, ?_, ih.2.2.2⟩
+      rw [apps_append, ih.2.2.1]
+      split <;> simp [apps]
+
+theorem gRunTask_core (w : World) (k : Nat) (t : Task) (l : Lab) (cur : List Lab) (b : Nat)
+    (A T : List Nat) (hlen : cur.length = w.retryQ.length)
+    (hc : Core A (apps cur ++ (l.toList ++ T)) b) :
+    Fr1 w (runTask w k t) ∧
+    Core (A ++ apps (gRunTask w k t l cur).2) (apps (gRunTask w k t l cur).1 ++ T) b ∧
+    (gRunTask w k t l cur).1.length = (runTask w k t).retryQ.length := by
+  have hc0 : Core A (apps cur ++ T) b := hc.sub (by simp)
+  cases t with
+  | req r =>
+    have hg := runTask_req_g w k r
+    have he := hg.extLab cur l
+    simp only [gRunTask]
+    generalize C03.extLab cur l (decide ((runTask w k (.req r)).retryQ.length > w.retryQ.length)) = cur' at he
+    refine ⟨hg.fr, ?_, ?_⟩
+    · by_cases hemp : w.retryQ.isEmpty
+      · have hcur : cur = [] := by
+          have : w.retryQ = [] := by simpa using hemp
+          rw [this] at hlen; simpa using hlen
+        subst hcur
+        simp only [hemp, if_true, apps_single]
+        simp only [apps_nil, List.nil_append] at hc
+        rcases he with ⟨_, h2⟩ | ⟨_, h2⟩ <;> rw [h2]
+        · exact hc.attemptLab.sub (by simp)
+        · simp only [List.nil_append, apps_single]; exact hc.attemptLab
+      · simp only [hemp, Bool.false_eq_true, if_false, apps_nil, List.append_nil]
+        rcases he with ⟨_, h2⟩ | ⟨_, h2⟩ <;> rw [h2]
+        · exact hc0
+        · rw [apps_append, apps_single, List.append_assoc]; exact hc
+    · rcases he with ⟨h1, h2⟩ | ⟨⟨x, h1, _⟩, h2⟩
+      · rw [h2, h1]; exact hlen
+      · rw [h2, h1]; simp [hlen]
+  | resubscribe =>
+    have h := gResubLoop_spec k w.subEst { w with subEst := [] } cur hlen
+    refine ⟨Fr1.trans (b := { w with subEst := [] }) ⟨rfl, rfl, rfl⟩ h.1, ?_, h.2.2.2⟩
+    show Core (A ++ apps (gResubLoop { w with subEst := [] } k w.subEst cur).2)
+      (apps (gResubLoop { w with subEst := [] } k w.subEst cur).1 ++ T) b
+    rw [h.2.1, h.2.2.1]; simpa using hc0
+  | retry =>
+    have h := gRetryLoop_core k b T w.retryQ { w with retryQ := [] } cur A hlen rfl hc0
+    exact ⟨Fr1.trans (b := { w with retryQ := [] }) ⟨rfl, rfl, rfl⟩ h.1, h.2.1, h.2.2⟩
+  | disconnect =>
+    have hfr : Fr w (runTask w k .disconnect) := by
+      simp only [runTask]
+      split
+      · exact (fr_logPkt w k .disconnect (.sent .ok)).trans (fr_kill _ k)
+      · exact fr_logPkt w k .disconnect .dead
+    refine ⟨hfr.fr1, ?_, ?_⟩
+    · simpa [gRunTask] using hc0
+    · simp only [gRunTask]; rw [hfr.retryQ]; exact hlen
+
+/-- the invariant of the ghost run -/
+structure GInv (w : World) (g : Gh) (b : Nat) : Prop where
+  core : Core (apps g.out) (apps g.rq ++ apps g.tq) b
+  lenT : g.tq.length = w.taskQ.length
+  lenR : g.rq.length = w.retryQ.length
+
+theorem GInv.of_fields {w w' : World} {g : Gh} {b : Nat} (h : GInv w g b) (h1 : w'.taskQ = w.taskQ)
+    (h2 : w'.retryQ = w.retryQ) : GInv w' g b := ⟨h.core, by rw [h1]; exact h.lenT, by rw [h2]; exact h.lenR⟩
+
+theorem gRunTasks_inv (b : Nat) : ∀ (fuel : Nat) (w : World) (g : Gh), GInv w g b →
+    GInv (runTasks fuel w) (gRunTasks fuel w g) b
+  | 0, w, g, h => by simpa [runTasks, gRunTasks] using h
+  | fuel + 1, w, g, h => by
+    rw [runTasks, gRunTasks]
+    split
+    · exact h
+    · split
+      · exact h
+      · simp only
+        cases htq' : w.taskQ with
+        | nil => dsimp only; exact h.of_fields htq'.symm rfl
+        | cons t rest =>
+        cases hcli : w.cli with
+        | none => dsimp only; exact h.of_fields htq'.symm rfl
+        | some k =>
+          obtain ⟨l, ls, hg⟩ : ∃ l ls, g.tq = l :: ls := by
+            have := h.lenT; rw [htq'] at this
+            cases hh : g.tq with
+            | nil => rw [hh] at this; simp at this
+            | cons l ls => exact ⟨l, ls, rfl⟩
+          have hls : ls.length = rest.length := by
+            have := h.lenT; rw [htq', hg] at this; simpa using this
+          have hc := h.core
+          rw [hg, apps_cons] at hc
+          have hr := gRunTask_core { w with gConnected := true, taskQ := rest, totalTasks := w.totalTasks + 1 } k t l g.rq b
+            (apps g.out) (apps ls) h.lenR hc
+          dsimp only
+          simp only [← hcli, hg, List.headD_cons, List.tail_cons]
+          generalize gRunTask { w with gConnected := true, taskQ := rest, totalTasks := w.totalTasks + 1 } k t l g.rq = gr at hr
+          generalize runTask { w with gConnected := true, taskQ := rest, totalTasks := w.totalTasks + 1 } k t = w2 at hr
+          have hi2 : GInv w2 { tq := ls, rq := gr.1, out := g.out ++ gr.2 } b :=
+            ⟨by rw [apps_append]; exact hr.2.1, by rw [hr.1.taskQ]; exact hls, hr.2.2⟩
+          split
+          · exact hi2
+          · apply gRunTasks_inv b fuel
+            split
+            · exact hi2.of_fields (fr_kill w2 k).taskQ (fr_kill w2 k).retryQ
+            · exact hi2
+
+theorem loopReact_ginv {w : World} {g : Gh} {b : Nat} (h : GInv w g b) : GInv (loopReact w) g b := by
+  unfold loopReact
+  split
+  · split
+    · exact h
+    · split
+      · exact h.of_fields rfl rfl
+      · exact h.of_fields rfl rfl
+  · exact h
+
+theorem progress_ginv {w : World} {g : Gh} {b : Nat} (h : GInv w g b) : GInv (progress w) (gProgress w g) b :=
+  loopReact_ginv (gRunTasks_inv b _ w g h)
+
+/-! ### the ghost labels and the wire log -/
+
+def keysOf (l : List (Pkt × Wire)) : List Key := l.filterMap (fun pw => pktKey pw.1)
+
+/-- the keys of all request packets (PUBLISH, SUBSCRIBE, UNSUBSCRIBE) of the run, in wire order -/
+def wireKeys (w : World) : List Key := keysOf (allPkts w)
+
+theorem keysOf_append (a b) : keysOf (a ++ b) = keysOf a ++ keysOf b := by
+  simp [keysOf, List.filterMap_append]
+
+theorem keysOf_single (p : Pkt) (x : Wire) : keysOf [(p, x)] = (pktKey p).toList := by
+  unfold keysOf
+  simp only [List.filterMap_cons, List.filterMap_nil]
+  cases pktKey p <;> rfl
+
+theorem wireKeys_eq_flatMap (w : World) : wireKeys w = w.conns.flatMap (fun c => keysOf c.pkts) := by
+  unfold wireKeys allPkts keysOf; rw [List.filterMap_flatMap]
+
+theorem wk_congr {w w' : World} (h : w'.conns = w.conns) : wireKeys w' = wireKeys w := by
+  unfold wireKeys allPkts; rw [h]
+
+theorem wk_setConn_same (w : World) (k : Nat) (c : Conn)
+    (h : keysOf c.pkts = keysOf (getConn w k).pkts) : wireKeys (setConn w k c) = wireKeys w := by
+  rw [wireKeys_eq_flatMap, wireKeys_eq_flatMap]
+  exact flatMap_set_same (fun c => keysOf c.pkts) ({} : Conn) w.conns k c h
+
+theorem wk_setConn_last (w : World) (k : Nat) (c : Conn) (x) (hk : k + 1 = w.conns.length)
+    (h : c.pkts = (getConn w k).pkts ++ x) : wireKeys (setConn w k c) = wireKeys w ++ keysOf x := by
+  unfold wireKeys allPkts setConn
+  simp only
+  rw [flatMap_set_last (·.pkts) ({} : Conn) w.conns k c x hk h, keysOf_append]
+
+theorem wk_logPkt (w : World) (k : Nat) (p : Pkt) (x : Wire) (hk : k + 1 = w.conns.length) :
+    wireKeys (logPkt w k p x) = wireKeys w ++ (pktKey p).toList := by
+  unfold logPkt
+  rw [wk_setConn_last w k _ [(p, x)] hk rfl, keysOf_single]
+
+theorem wk_logPkt_quiet (w : World) (k : Nat) (p : Pkt) (x : Wire) (h : pktKey p = none) :
+    wireKeys (logPkt w k p x) = wireKeys w := by
+  unfold logPkt
+  apply wk_setConn_same
+  simp only
+  rw [keysOf_append, keysOf_single, h]; simp
+
+theorem wk_kill (w : World) (k : Nat) : wireKeys (kill w k) = wireKeys w := by
+  unfold kill
+  exact wk_setConn_same w k _ rfl
+
+theorem wk_nextFault (w : World) : wireKeys (nextFault w).2 = wireKeys w := by
+  unfold nextFault; split <;> rfl
+
+theorem send_wk (w : World) (k : Nat) (p : Pkt) (waits : Bool) (hk : k + 1 = w.conns.length) :
+    wireKeys (send w k p waits).1 = wireKeys w ++ (pktKey p).toList := by
+  unfold send
+  split
+  · exact wk_logPkt _ _ _ _ hk
+  · have hk' : k + 1 = (nextFault w).2.conns.length := by rw [len_nextFault]; exact hk
+    have h := wk_logPkt (nextFault w).2 k p (.sent (nextFault w).1) hk'
+    rw [wk_nextFault] at h
+    simp only
+    split
+    · exact h
+    · rw [wk_kill]; exact h
+    · rw [wk_kill]; exact h
+    · rw [wk_kill]; exact h
+    · split
+      · exact h
+      · split <;> exact h
+
+theorem relAttempt_wk (w : World) (k m id : Nat) (hk : k + 1 = w.conns.length) :
+    wireKeys (relAttempt w k m id).1 = wireKeys w := by
+  unfold relAttempt
+  have h := send_wk w k (.pubrel id m) true hk
+  simp only [pktKey, Option.toList_none, List.append_nil] at h
+  simp only
+  split
+  · exact h
+  · exact h
+  · exact h
+
+theorem assignId_wk (w : World) (k m : Nat) : wireKeys (assignId w k m).1 = wireKeys w := by
+  unfold assignId
+  split
+  · rfl
+  · exact wk_setConn_same _ _ _ rfl
+
+theorem pubAttempt_wk (w : World) (k m qos : Nat) (dup : Bool) (hk : k + 1 = w.conns.length) :
+    wireKeys (pubAttempt w k m qos dup).1 = wireKeys w ++ [.pub m] := by
+  rw [pubAttempt_eq]
+  have h1 := assignId_fr w k m
+  have hk1 : k + 1 = (assignId w k m).1.conns.length := by rw [h1.len]; exact hk
+  have h2 := send_wk (assignId w k m).1 k (.publish m qos (assignId w k m).2 dup) (qos ≠ 0) hk1
+  rw [assignId_wk] at h2
+  have h3 := send_fr (assignId w k m).1 k (.publish m qos (assignId w k m).2 dup) (qos ≠ 0)
+  simp only [pktKey, Option.toList_some] at h2
+  simp only
+  split
+  · split
+    · rw [relAttempt_wk _ _ _ _ (by rw [h3.len]; exact hk1)]; exact h2
+    · split
+      · exact h2
+      · exact h2
+  · exact h2
+  · exact h2
+
+theorem bumpCtr_wk (w : World) (k : Nat) : wireKeys (bumpCtr w k).1 = wireKeys w :=
+  wk_setConn_same w k { getConn w k with ctr := (newID (getConn w k).ctr).1 } rfl
+
+theorem subAttempt_wk (w : World) (k : Nat) (subs) (hk : k + 1 = w.conns.length) :
+    wireKeys (subAttempt w k subs).1 = wireKeys w ++ [.sub subs] := by
+  rw [subAttempt_eq]
+  have h2 := send_wk (bumpCtr w k).1 k (.subscribe (bumpCtr w k).2 subs) true (by rw [(bumpCtr_fr w k).len]; exact hk)
+  rw [bumpCtr_wk] at h2
+  simp only [pktKey, Option.toList_some] at h2
+  simp only
+  split
+  · exact h2
+  · exact h2
+  · exact h2
+
+theorem unsubAttempt_wk (w : World) (k : Nat) (ts) (hk : k + 1 = w.conns.length) :
+    wireKeys (unsubAttempt w k ts).1 = wireKeys w ++ [.unsub ts] := by
+  rw [unsubAttempt_eq]
+  have h2 := send_wk (bumpCtr w k).1 k (.unsubscribe (bumpCtr w k).2 ts) true (by rw [(bumpCtr_fr w k).len]; exact hk)
+  rw [bumpCtr_wk] at h2
+  simp only [pktKey, Option.toList_some] at h2
+  simp only
+  split
+  · exact h2
+  · exact h2
+  · exact h2
+
+theorem absorb_conns (w : World) (o : Outcome) : (absorb w o).conns = w.conns := by
+  unfold absorb; split <;> rfl
+
+theorem firstPub_wk (w : World) (k m qos : Nat) (hk : k + 1 = w.conns.length) :
+    wireKeys (firstPub w k m qos) = wireKeys w ++ [.pub m] :=
+  (wk_congr (absorb_conns _ _)).trans (pubAttempt_wk w k m qos false hk)
+
+theorem firstSub_wk (w : World) (k : Nat) (subs) (hk : k + 1 = w.conns.length) :
+    wireKeys (firstSub w k subs) = wireKeys w ++ [.sub subs] :=
+  (wk_congr (absorb_conns _ _)).trans (subAttempt_wk w k subs hk)
+
+theorem firstUnsub_wk (w : World) (k : Nat) (ts) (hk : k + 1 = w.conns.length) :
+    wireKeys (firstUnsub w k ts) = wireKeys w ++ [.unsub ts] :=
+  (wk_congr (absorb_conns _ _)).trans (unsubAttempt_wk w k ts hk)
+
+/-- every retry-queue entry puts exactly one request packet on the wire, of its own key — except a
+    PUBREL handle, which puts none -/
+theorem runEntry_wk (w : World) (k : Nat) (e : Entry) (hk : k + 1 = w.conns.length) :
+    wireKeys (runEntry w k e).1 = wireKeys w ++ (if isRel e then [] else [entryKey e]) := by
+  cases e with
+  | qPub m qos => exact firstPub_wk w k m qos hk
+  | qSub subs => exact firstSub_wk w k subs hk
+  | qUnsub ts => exact firstUnsub_wk w k ts hk
+  | rePublish m qos => exact pubAttempt_wk w k m qos true hk
+  | rePubRel m =>
+    show wireKeys (relAttempt w k m ((lookupPid w m).getD 0)).1 = wireKeys w ++ []
+    rw [List.append_nil]; exact relAttempt_wk w k m _ hk
+  | reSub subs => exact subAttempt_wk w k subs hk
+  | reUnsub ts => exact unsubAttempt_wk w k ts hk
+
+theorem subscribeTask_wk (w : World) (k : Nat) (subs) (hk : k + 1 = w.conns.length) :
+    wireKeys (subscribeTask w k subs) = wireKeys w ++ (if w.retryQ.isEmpty then [.sub subs] else []) := by
+  unfold subscribeTask
+  simp only
+  split
+  · exact firstSub_wk { w with subEst := applySubs w.subEst subs } k subs hk
+  · simp; rfl
+
+theorem runTask_req_wk (w : World) (k : Nat) (r : Req) (hk : k + 1 = w.conns.length) :
+    wireKeys (runTask w k (.req r)) = wireKeys w ++ (if w.retryQ.isEmpty then [reqKey r] else []) := by
+  cases r with
+  | pub m qos =>
+    simp only [runTask]
+    split
+    · exact firstPub_wk w k m qos hk
+    · split <;> simp <;> rfl
+  | sub subs => exact subscribeTask_wk w k subs hk
+  | unsub ts =>
+    simp only [runTask]
+    split
+    · exact firstUnsub_wk { w with subEst := applyUnsubs w.subEst ts } k ts hk
+    · simp; rfl
+
+/-- two lists of the same length, related position by position -/
+inductive All2 {α β : Type} (R : α → β → Prop) : List α → List β → Prop
+  | nil : All2 R [] []
+  | cons {a b as bs} : R a b → All2 R as bs → All2 R (a :: as) (b :: bs)
+
+theorem All2.append {α β : Type} {R : α → β → Prop} : ∀ {a a' : List α} {b b' : List β},
+    All2 R a b → All2 R a' b' → All2 R (a ++ a') (b ++ b')
+  | _, _, _, _, .nil, h => h
+  | _, _, _, _, .cons h t, h' => .cons h (t.append h')
+
+theorem All2.single {α β : Type} {R : α → β → Prop} {a : α} {b : β} (h : R a b) : All2 R [a] [b] :=
+  .cons h .nil
+
+theorem All2.length_eq {α β : Type} {R : α → β → Prop} : ∀ {a : List α} {b : List β},
+    All2 R a b → a.length = b.length
+  | _, _, .nil => rfl
+  | _, _, .cons _ t => by simp [t.length_eq]
+
+/-- what a label says about the key of the task / entry / packet it labels -/
+def LabKey (reqs : List Req) (l : Lab) (κ : Key) : Prop :=
+  match l with
+  | some i => (reqs[i]?).map reqKey = some κ     -- the application's request number `i`
+  | none => ∃ s, κ = .sub [s]                     -- the library's re-subscription of one filter
+
+def EntOk (reqs : List Req) (l : Lab) (e : Entry) : Prop := LabKey reqs l (entryKey e)
+def TaskOk (reqs : List Req) (l : Lab) (t : Task) : Prop := ∀ r, t = .req r → LabKey reqs l (reqKey r)
+
+theorem emit_ok {reqs : List Req} {l : Lab} {κ : Key} (h : LabKey reqs l κ) (c : Bool) :
+    All2 (LabKey reqs) (if c then [] else [l]) (if c then [] else [κ]) := by
+  cases c
+  · exact .single h
+  · exact .nil
+
+theorem emit_ok' {reqs : List Req} {l : Lab} {κ : Key} (h : LabKey reqs l κ) (c : Bool) :
+    All2 (LabKey reqs) (if c then [l] else []) (if c then [κ] else []) := by
+  cases c
+  · exact .nil
+  · exact .single h
+
+theorem gRetryLoop_wire (reqs : List Req) (k : Nat) : ∀ (old : List Entry) (w : World) (ls : List Lab),
+    k + 1 = w.conns.length → w.retryQ = [] → All2 (EntOk reqs) ls old →
+    Fr1 w (retryLoop w k old) ∧
+    ∃ X, wireKeys (retryLoop w k old) = wireKeys w ++ X ∧
+      All2 (LabKey reqs) (gRetryLoop w k old ls).2 X ∧
+      All2 (EntOk reqs) (gRetryLoop w k old ls).1 (retryLoop w k old).retryQ
+  | [], w, ls, _, hq, hok => by
+    simp only [retryLoop, gRetryLoop, hq]
+    exact ⟨Fr1.rfl' w, [], by simp, .nil, .nil⟩
+  | e :: rest, w, ls, hk, hq, hok => by
+    obtain ⟨l, ls', rfl, hl, hls⟩ : ∃ l ls', ls = l :: ls' ∧ EntOk reqs l e ∧ All2 (EntOk reqs) ls' rest := by
+      cases hok with
+      | cons h t => exact ⟨_, _, rfl, h, t⟩
+    rw [retryLoop_cons, gRetryLoop_cons]
+    split
+    · exact ⟨Fr1.rfl' w, [], by simp, .nil, by rw [hq]; exact .nil⟩
+    · have hs := runEntry_g { w with totalRetries := w.totalRetries + 1 } k e
+      have hwk := runEntry_wk { w with totalRetries := w.totalRetries + 1 } k e hk
+      generalize runEntry { w with totalRetries := w.totalRetries + 1 } k e = r at hs hwk
+      obtain ⟨w2, o⟩ := r
+      simp only [List.headD_cons, List.tail_cons] at hs hwk ⊢
+      have hwk : wireKeys w2 = wireKeys w ++ (if isRel e then [] else [entryKey e]) := hwk
+      have hfr : Fr1 w w2 := Fr1.trans (b := { w with totalRetries := w.totalRetries + 1 }) ⟨rfl, rfl, rfl⟩ hs.fr
+      have hem := emit_ok hl (isRel e)
+      generalize (if isRel e then [] else [l]) = em at hem
+      generalize (if isRel e then [] else [entryKey e]) = X0 at hem hwk
+      -- the queue after the entry: still empty, or the entry's own handle
+      have hqq : (w2.retryQ = [] ∧ extLab [] l (! w2.retryQ.isEmpty) = []) ∨
+          (w2.closeAfterTask = true ∧ extLab [] l (! w2.retryQ.isEmpty) = [l] ∧
+            ∃ h, w2.retryQ = [h] ∧ entryKey h = entryKey e) := by
+        rcases hs.q with ⟨h1, _⟩ | ⟨hcaf, h, h1, h2⟩
+        · left
+          have : w2.retryQ = [] := by rw [h1]; exact hq
+          exact ⟨this, by rw [this]; rfl⟩
+        · right
+          have : w2.retryQ = [h] := by rw [h1]; show w.retryQ ++ [h] = [h]; rw [hq]; rfl
+          exact ⟨hcaf, by rw [this]; rfl, h, this, h2⟩
+      have hcur : All2 (EntOk reqs) (extLab [] l (! w2.retryQ.isEmpty)) w2.retryQ := by
+        rcases hqq with ⟨h1, h0⟩ | ⟨_, h0, h, h1, h2⟩ <;> rw [h0, h1]
+        · exact .nil
+        · exact .single (show LabKey reqs l (entryKey h) by rw [h2]; exact hl)
+      generalize extLab [] l (! w2.retryQ.isEmpty) = cur at hqq hcur
+      have hstop : All2 (EntOk reqs) (cur ++ ls') (w2.retryQ ++ rest) := hcur.append hls
+      have hrec : w2.closeAfterTask = false →
+          Fr1 w (retryLoop w2 k rest) ∧
+          ∃ X, wireKeys (retryLoop w2 k rest) = wireKeys w ++ X ∧
+            All2 (LabKey reqs) (em ++ (gRetryLoop w2 k rest ls').2) X ∧
+            All2 (EntOk reqs) (gRetryLoop w2 k rest ls').1 (retryLoop w2 k rest).retryQ := by
+        intro hcaf
+        have h0 : w2.retryQ = [] := by
+          rcases hqq with ⟨h0, _⟩ | ⟨h1, _⟩
+          · exact h0
+          · rw [hcaf] at h1; cases h1
+        obtain ⟨i1, X, i2, i3, i4⟩ := gRetryLoop_wire reqs k rest w2 ls' (by rw [hfr.len]; exact hk) h0 hls
+        exact ⟨hfr.trans i1, X0 ++ X, by rw [i2, hwk, List.append_assoc], hem.append i3, i4⟩
+      cases o with
+      | stuck => exact ⟨hfr, X0, hwk, hem, hcur⟩
+      | fail ho err =>
+        cases ho with
+        | some h =>
+          obtain ⟨hh1, hh2⟩ := hs.qfail h err rfl
+          refine ⟨⟨hfr.taskQ, hfr.cli, hfr.len⟩, X0, hwk, hem, ?_⟩
+          show All2 (EntOk reqs) (cur ++ [l] ++ ls') (w2.retryQ ++ [h] ++ rest)
+          exact (hcur.append (.single (show LabKey reqs l (entryKey h) by rw [hh1]; exact hl))).append hls
+        | none =>
+          simp only
+          split
+          · exact ⟨⟨hfr.taskQ, hfr.cli, hfr.len⟩, X0, hwk, hem, hstop⟩
+          · rename_i hcaf
+            exact hrec (by simpa using hcaf)
+      | done =>
+        simp only
+        split
+        · exact ⟨⟨hfr.taskQ, hfr.cli, hfr.len⟩, X0, hwk, hem, hstop⟩
+        · rename_i hcaf
+          exact hrec (by simpa using hcaf)
+
+theorem Grow1.extLab_ok {reqs : List Req} {w w' : World} {κ : Key} (h : Grow1 w w' κ) (cur : List Lab) (l : Lab)
+    (hcur : All2 (EntOk reqs) cur w.retryQ) (hl : LabKey reqs l κ) :
+    All2 (EntOk reqs) (C03.extLab cur l (w'.retryQ.length > w.retryQ.length)) w'.retryQ := by
+  rcases h.extLab cur l with ⟨h1, h2⟩ | ⟨⟨x, h1, hx⟩, h2⟩ <;> rw [h2, h1]
+  · exact hcur
+  · exact hcur.append (.single (show LabKey reqs l (entryKey x) by rw [hx]; exact hl))
+
+theorem gResubLoop_wire (reqs : List Req) (k : Nat) : ∀ (l : List Subscription) (w : World) (cur : List Lab),
+    k + 1 = w.conns.length → All2 (EntOk reqs) cur w.retryQ →
+    Fr1 w (resubLoop w k l) ∧
+    ∃ X, wireKeys (resubLoop w k l) = wireKeys w ++ X ∧
+      All2 (LabKey reqs) (gResubLoop w k l cur).2 X ∧
+      All2 (EntOk reqs) (gResubLoop w k l cur).1 (resubLoop w k l).retryQ
+  | [], w, cur, _, hcur => ⟨Fr1.rfl' w, [], by simp [resubLoop], .nil, hcur⟩
+  | s :: rest, w, cur, hk, hcur => by
+    unfold resubLoop gResubLoop
+    split
+    · exact ⟨Fr1.rfl' w, [], by simp, .nil, hcur⟩
+    · have hg := subscribeTask_g w k [s]
+      have hwk := subscribeTask_wk w k [s] hk
+      have he := hg.extLab_ok (reqs := reqs) cur none hcur ⟨s, rfl⟩
+      obtain ⟨i1, X, i2, i3, i4⟩ := gResubLoop_wire reqs k rest (subscribeTask w k [s]) _
+        (by rw [hg.fr.len]; exact hk) he
+      refine ⟨hg.fr.trans i1, (if w.retryQ.isEmpty then [Key.sub [s]] else []) ++ X,
+        by rw [i2, hwk, List.append_assoc], ?_, i4⟩
+      exact (emit_ok' (reqs := reqs) (l := none) ⟨s, rfl⟩ w.retryQ.isEmpty).append i3
+
+theorem gRunTask_wire (reqs : List Req) (w : World) (k : Nat) (t : Task) (l : Lab) (cur : List Lab)
+    (hk : k + 1 = w.conns.length) (hcur : All2 (EntOk reqs) cur w.retryQ) (hl : TaskOk reqs l t) :
+    Fr1 w (runTask w k t) ∧
+    ∃ X, wireKeys (runTask w k t) = wireKeys w ++ X ∧
+      All2 (LabKey reqs) (gRunTask w k t l cur).2 X ∧
+      All2 (EntOk reqs) (gRunTask w k t l cur).1 (runTask w k t).retryQ := by
+  cases t with
+  | req r =>
+    have hg := runTask_req_g w k r
+    exact ⟨hg.fr, _, runTask_req_wk w k r hk, emit_ok' (hl r rfl) w.retryQ.isEmpty,
+      hg.extLab_ok cur l hcur (hl r rfl)⟩
+  | resubscribe =>
+    obtain ⟨i1, X, i2, i3, i4⟩ := gResubLoop_wire reqs k w.subEst { w with subEst := [] } cur hk hcur
+    exact ⟨Fr1.trans (b := { w with subEst := [] }) ⟨rfl, rfl, rfl⟩ i1, X, i2, i3, i4⟩
+  | retry =>
+    obtain ⟨i1, X, i2, i3, i4⟩ := gRetryLoop_wire reqs k w.retryQ { w with retryQ := [] } cur hk rfl hcur
+    exact ⟨Fr1.trans (b := { w with retryQ := [] }) ⟨rfl, rfl, rfl⟩ i1, X, i2, i3, i4⟩
+  | disconnect =>
+    have hfr : Fr w (runTask w k .disconnect) ∧ wireKeys (runTask w k .disconnect) = wireKeys w := by
+      simp only [runTask]
+      split
+      · exact ⟨(fr_logPkt w k .disconnect (.sent .ok)).trans (fr_kill _ k),
+          by rw [wk_kill, wk_logPkt_quiet _ _ _ _ rfl]⟩
+      · exact ⟨fr_logPkt w k .disconnect .dead, wk_logPkt_quiet _ _ _ _ rfl⟩
+    refine ⟨hfr.1.fr1, [], by rw [hfr.2]; simp, .nil, ?_⟩
+    simp only [gRunTask]; rw [hfr.1.retryQ]; exact hcur
+
+/-- the invariant that ties the ghost to the queues and to the wire log -/
+structure WInv (reqs : List Req) (w : World) (g : Gh) : Prop where
+  okT : All2 (TaskOk reqs) g.tq w.taskQ
+  okR : All2 (EntOk reqs) g.rq w.retryQ
+  wire : All2 (LabKey reqs) g.out (wireKeys w)
+  cli : ∀ k, w.cli = some k → k + 1 = w.conns.length
+
+theorem gRunTasks_winv (reqs : List Req) : ∀ (fuel : Nat) (w : World) (g : Gh), WInv reqs w g →
+    WInv reqs (runTasks fuel w) (gRunTasks fuel w g)
+  | 0, w, g, h => by simpa [runTasks, gRunTasks] using h
+  | fuel + 1, w, g, h => by
+    rw [runTasks, gRunTasks]
+    split
+    · exact h
+    · split
+      · exact h
+      · simp only
+        cases htq' : w.taskQ with
+        | nil => dsimp only; exact ⟨by rw [← htq']; exact h.okT, h.okR, h.wire, h.cli⟩
+        | cons t rest =>
+        cases hcli : w.cli with
+        | none => dsimp only; exact ⟨by rw [← htq']; exact h.okT, h.okR, h.wire, by simp⟩
+        | some k =>
+          obtain ⟨l, ls, hg, hl, hls⟩ : ∃ l ls, g.tq = l :: ls ∧ TaskOk reqs l t ∧ All2 (TaskOk reqs) ls rest := by
+            have := h.okT; rw [htq'] at this
+            cases hh : g.tq with
+            | nil => rw [hh] at this; cases this
+            | cons l ls => rw [hh] at this; cases this with | cons a b => exact ⟨l, ls, rfl, a, b⟩
+          have hk := h.cli k hcli
+          have hr := gRunTask_wire reqs { w with gConnected := true, taskQ := rest, totalTasks := w.totalTasks + 1 } k t l g.rq
+            hk h.okR hl
+          dsimp only
+          simp only [← hcli, hg, List.headD_cons, List.tail_cons]
+          generalize gRunTask { w with gConnected := true, taskQ := rest, totalTasks := w.totalTasks + 1 } k t l g.rq = gr at hr
+          generalize runTask { w with gConnected := true, taskQ := rest, totalTasks := w.totalTasks + 1 } k t = w2 at hr
+          obtain ⟨hfr, X, hx1, hx2, hx3⟩ := hr
+          have hi2 : WInv reqs w2 { tq := ls, rq := gr.1, out := g.out ++ gr.2 } :=
+            ⟨by rw [hfr.taskQ]; exact hls, hx3, by rw [hx1]; exact h.wire.append hx2,
+              fun j hj => by rw [hfr.len]; exact h.cli j (by rw [← hj, hfr.cli])⟩
+          split
+          · exact hi2
+          · apply gRunTasks_winv reqs fuel
+            split
+            · have hf := fr_kill w2 k
+              exact ⟨by rw [show ({ kill w2 k with gConnected := false, closeAfterTask := false } : World).taskQ = w2.taskQ from hf.taskQ]; exact hi2.okT,
+                by rw [show ({ kill w2 k with gConnected := false, closeAfterTask := false } : World).retryQ = w2.retryQ from hf.retryQ]; exact hi2.okR,
+                by rw [show wireKeys ({ kill w2 k with gConnected := false, closeAfterTask := false } : World) = wireKeys w2 from wk_kill w2 k]; exact hi2.wire,
+                fun j hj => by
+                  show j + 1 = (kill w2 k).conns.length
+                  rw [hf.len]; exact hi2.cli j (by rw [← hf.cli]; exact hj)⟩
+            · exact hi2
+
+theorem loopReact_winv {reqs : List Req} {w : World} {g : Gh} (h : WInv reqs w g) : WInv reqs (loopReact w) g := by
+  unfold loopReact
+  split
+  · split
+    · exact h
+    · split
+      · exact ⟨h.okT, h.okR, h.wire, h.cli⟩
+      · exact ⟨h.okT, h.okR, h.wire, h.cli⟩
+  · exact h
+
+theorem progress_winv {reqs : List Req} {w : World} {g : Gh} (h : WInv reqs w g) :
+    WInv reqs (progress w) (gProgress w g) :=
+  loopReact_winv (gRunTasks_winv reqs _ w g h)
+
+/-- the current connection is the newest one -/
+def CL (w : World) : Prop := ∀ k, w.cli = some k → k + 1 = w.conns.length
+
+/-- same request packets on the wire; "the current connection is the newest" is kept -/
+def SameW (a b : World) : Prop := wireKeys b = wireKeys a ∧ (CL a → CL b)
+
+/-- same queues, same request packets on the wire -/
+def SameQ (a b : World) : Prop := b.taskQ = a.taskQ ∧ b.retryQ = a.retryQ ∧ SameW a b
+
+theorem SameQ.rfl' (w : World) : SameQ w w := ⟨rfl, rfl, rfl, id⟩
+
+theorem Fr.sameW {a b : World} (h : Fr a b) (hw : wireKeys b = wireKeys a) : SameW a b :=
+  ⟨hw, fun hc k hk => by rw [h.len]; exact hc k (by rw [← h.cli]; exact hk)⟩
+
+theorem Fr.sameQ {a b : World} (h : Fr a b) (hw : wireKeys b = wireKeys a) : SameQ a b :=
+  ⟨h.taskQ, h.retryQ, h.sameW hw⟩
+
+theorem deliverInbound_fr (w : World) (k m qos : Nat) :
+    Fr w (deliverInbound w k m qos) ∧ wireKeys (deliverInbound w k m qos) = wireKeys w := by
+  unfold deliverInbound
+  simp only
+  split
+  · exact ⟨Fr.rfl' w, rfl⟩
+  · have key : ∀ w1 : World, Fr w w1 ∧ wireKeys w1 = wireKeys w →
+        Fr w (if qos = 1 then logPkt w1 k (.puback (m + 1)) (.sent .ok) else w1) ∧
+        wireKeys (if qos = 1 then logPkt w1 k (.puback (m + 1)) (.sent .ok) else w1) = wireKeys w := by
+      intro w1 h1
+      split
+      · exact ⟨h1.1.trans (fr_logPkt _ _ _ _), by rw [wk_logPkt_quiet _ _ _ _ rfl]; exact h1.2⟩
+      · exact h1
+    apply key
+    split
+    · exact ⟨⟨rfl, rfl, rfl, rfl, rfl⟩, rfl⟩
+    · exact ⟨Fr.rfl' w, rfl⟩
+
+theorem foldl_deliverInbound_fr (k : Nat) : ∀ (l : List (Nat × Nat)) (w : World),
+    Fr w (l.foldl (fun w (mq : Nat × Nat) => deliverInbound w k mq.1 mq.2) w) ∧
+    wireKeys (l.foldl (fun w (mq : Nat × Nat) => deliverInbound w k mq.1 mq.2) w) = wireKeys w
+  | [], w => ⟨Fr.rfl' w, rfl⟩
+  | mq :: rest, w => by
+    simp only [List.foldl_cons]
+    have h1 := deliverInbound_fr w k mq.1 mq.2
+    have h2 := foldl_deliverInbound_fr k rest (deliverInbound w k mq.1 mq.2)
+    exact ⟨h1.1.trans h2.1, h2.2.trans h1.2⟩
+
+theorem connectFailed_fr (w : World) (k : Nat) :
+    Fr w (connectFailed w k) ∧ wireKeys (connectFailed w k) = wireKeys w := by
+  unfold connectFailed
+  have h1 : Fr w (kill { w with connReady := true } k) :=
+    Fr.trans (b := { w with connReady := true }) ⟨rfl, rfl, rfl, rfl, rfl⟩ (fr_kill _ k)
+  have h2 : wireKeys (kill { w with connReady := true } k) = wireKeys w := wk_kill _ k
+  simp only
+  split
+  · exact ⟨⟨h1.taskQ, h1.retryQ, h1.caf, h1.cli, h1.len⟩, h2⟩
+  · exact ⟨⟨h1.taskQ, h1.retryQ, h1.caf, h1.cli, h1.len⟩, h2⟩
+
+theorem connackMid_fr (w : World) (sp : Bool) (inbound : List (Nat × Nat)) (k : Nat) :
+    Fr w (connackMid w sp inbound k) ∧ wireKeys (connackMid w sp inbound k) = wireKeys w := by
+  have h1 : wireKeys ({ setConn w k { getConn w k with connected := true } with
+        broker := if sp then (setConn w k { getConn w k with connected := true }).broker
+                  else (setConn w k { getConn w k with connected := true }).broker.clearSession } : World) =
+      wireKeys w := wk_setConn_same w k _ rfl
+  have h2 := foldl_deliverInbound_fr k inbound { setConn w k { getConn w k with connected := true } with
+        broker := if sp then (setConn w k { getConn w k with connected := true }).broker
+                  else (setConn w k { getConn w k with connected := true }).broker.clearSession }
+  have h0 := Fr.trans (a := w) (b := { setConn w k { getConn w k with connected := true } with
+        broker := if sp then (setConn w k { getConn w k with connected := true }).broker
+                  else (setConn w k { getConn w k with connected := true }).broker.clearSession })
+      ⟨rfl, rfl, rfl, rfl, by simp [setConn]⟩ h2.1
+  exact ⟨⟨h0.taskQ, h0.retryQ, h0.caf, h0.cli, h0.len⟩, h2.2.trans h1⟩
+
+/-- the tasks an event pushes: the application's request, or tasks of the library -/
+def PushedOk (e : Ev) (ts : List Task) : Prop :=
+  (∀ r, e = .app r → ts = [.req r]) ∧ ((∀ r, e ≠ .app r) → ∀ t ∈ ts, ∀ r, t ≠ .req r)
+
+theorem connackPre_q (w : World) (sp : Bool) (k : Nat) :
+    (connackPre w sp k).retryQ = w.retryQ ∧ (connackPre w sp k).conns = w.conns ∧
+    (connackPre w sp k).cli = w.cli ∧
+    ∃ ts, (connackPre w sp k).taskQ = w.taskQ ++ ts ∧ ∀ t ∈ ts, ∀ r, t ≠ .req r := by
+  unfold connackPre
+  simp only
+  split <;> split
+  · exact ⟨rfl, rfl, rfl, [.resubscribe], rfl, by simp⟩
+  · exact ⟨rfl, rfl, rfl, [.resubscribe, .retry], by simp [pushTask], by simp⟩
+  · exact ⟨rfl, rfl, rfl, [], by simp, by simp⟩
+  · exact ⟨rfl, rfl, rfl, [.retry], rfl, by simp⟩
+
+theorem sameQ_post (w : World) :
+    SameQ w (match w.phase with
+      | .up _ => { w with phase := .exited }
+      | .backoff => { w with phase := .exited }
+      | _ => w) := by
+  split <;> exact ⟨rfl, rfl, rfl, id⟩
+
+/-- `preProgress` is the world on which `step` lets the task goroutine run, with the pushed tasks -/
+theorem step_pre (w : World) (e : Ev) :
+    (preProgress w e = none ∧ SameQ w (step w e)) ∨
+    (∃ w1 ts, preProgress w e = some w1 ∧ SameQ (progress w1) (step w e) ∧ w1.retryQ = w.retryQ ∧
+      w1.taskQ = w.taskQ ++ ts ∧ PushedOk e ts ∧ SameW w w1) := by
+  have nonapp : ∀ {e : Ev} {ts : List Task}, (∀ r, e ≠ .app r) → (∀ t ∈ ts, ∀ r, t ≠ .req r) → PushedOk e ts :=
+    fun h1 h2 => ⟨fun r h => absurd h (h1 r), fun _ => h2⟩
+  cases e with
+  | start =>
+    refine .inl ⟨rfl, ?_⟩
+    simp only [step]
+    split
+    · exact ⟨rfl, rfl, rfl, id⟩
+    · split <;> exact ⟨rfl, rfl, rfl, id⟩
+  | app r =>
+    by_cases hs : w.stopped = true
+    · refine .inl ⟨by simp [preProgress, hs], ?_⟩
+      simp only [step, hs, if_true]; exact ⟨rfl, rfl, rfl, id⟩
+    · refine .inr ⟨pushTask { w with accepted := w.accepted ++ [r] } (.req r), [.req r],
+        by simp only [preProgress, hs, Bool.false_eq_true, if_false], ?_, rfl, rfl,
+        ⟨fun r' h => by cases h; rfl, fun h => absurd rfl (h r)⟩, rfl, id⟩
+      simp only [step, hs, Bool.false_eq_true, if_false]; exact SameQ.rfl' _
+  | dialOk idStart =>
+    refine .inl ⟨rfl, ?_⟩
+    simp only [step]
+    split
+    · exact ⟨rfl, rfl, rfl, id⟩
+    · refine ⟨rfl, rfl, ?_, ?_⟩
+      · show keysOf (List.flatMap (·.pkts) (w.conns ++ [_])) = wireKeys w
+        rw [List.flatMap_append, keysOf_append]
+        simp [keysOf, wireKeys, allPkts, pktKey]
+      · intro _ k hk
+        simp only [Option.some.injEq] at hk
+        simp [← hk]
+  | dialFail =>
+    refine .inl ⟨rfl, ?_⟩
+    simp only [step]
+    split
+    · exact ⟨rfl, rfl, rfl, id⟩
+    · split <;> exact ⟨rfl, rfl, rfl, id⟩
+  | waitElapsed =>
+    refine .inl ⟨rfl, ?_⟩
+    simp only [step]
+    split <;> exact ⟨rfl, rfl, rfl, id⟩
+  | inbound m qos =>
+    refine .inl ⟨rfl, ?_⟩
+    simp only [step]
+    split
+    · exact (deliverInbound_fr w _ m qos).1.sameQ (deliverInbound_fr w _ m qos).2
+    · exact ⟨rfl, rfl, rfl, id⟩
+  | handle hd =>
+    refine .inl ⟨rfl, ?_⟩
+    simp only [step]
+    split
+    · rename_i k _
+      refine ⟨rfl, rfl, wk_setConn_same { w with handler := some hd } k _ rfl, ?_⟩
+      intro hc j hj
+      simp only [setConn, List.length_set]
+      exact hc j hj
+    · exact ⟨rfl, rfl, rfl, id⟩
+  | cancelCtx =>
+    by_cases hc : w.ctxCancelled = true ∨ w.connectReturned.isSome = true
+    · refine .inl ⟨by simp only [preProgress, hc, if_true], ?_⟩
+      simp only [step, hc, if_true]; exact ⟨rfl, rfl, rfl, id⟩
+    · cases hph : w.phase with
+      | connackGate k =>
+        have hf : Fr w (kill { w with ctxCancelled := true, connReady := true } k) :=
+          Fr.trans (b := { w with ctxCancelled := true, connReady := true }) ⟨rfl, rfl, rfl, rfl, rfl⟩ (fr_kill _ k)
+        have hw : wireKeys (kill { w with ctxCancelled := true, connReady := true } k) = wireKeys w := wk_kill _ k
+        refine .inr ⟨{ kill { w with ctxCancelled := true, connReady := true } k with phase := .exited, connectErr := true },
+          [], by simp only [preProgress, hc, hph, if_false], ?_, hf.retryQ, by simpa using hf.taskQ,
+          nonapp (fun r h => by cases h) (by simp), (hf.sameW hw)⟩
+        simp only [step, hc, hph, if_false]; exact SameQ.rfl' _
+      | _ =>
+        refine .inl ⟨by simp only [preProgress, hc, hph, if_false], ?_⟩
+        simp only [step, hc, hph, if_false]; exact ⟨rfl, rfl, rfl, id⟩
+  | connackOk sp inbound =>
+    cases hph : w.phase with
+    | connackGate k =>
+      obtain ⟨h0, hw0⟩ := connackMid_fr w sp inbound k
+      obtain ⟨q1, q2, q3, ts, q4, q5⟩ := connackPre_q (connackMid w sp inbound k) sp k
+      refine .inr ⟨connackPre (connackMid w sp inbound k) sp k, ts, by simp only [preProgress, hph], ?_,
+        q1.trans h0.retryQ, by rw [q4, h0.taskQ], nonapp (fun r h => by cases h) q5, ?_, ?_⟩
+      · simp only [step, hph]; exact SameQ.rfl' _
+      · exact (wk_congr q2).trans hw0
+      · intro hc j hj
+        rw [q2, h0.len]; exact hc j (by rw [← h0.cli, ← q3]; exact hj)
+    | _ =>
+      refine .inl ⟨by simp only [preProgress, hph], ?_⟩
+      simp only [step, hph]; exact ⟨rfl, rfl, rfl, id⟩
+  | connackRefused =>
+    cases hph : w.phase with
+    | connackGate k =>
+      obtain ⟨hf, hw⟩ := connectFailed_fr w k
+      refine .inr ⟨connectFailed w k, [], by simp only [preProgress, hph], ?_, hf.retryQ, by simpa using hf.taskQ,
+        nonapp (fun r h => by cases h) (by simp), hf.sameW hw⟩
+      simp only [step, hph]; exact SameQ.rfl' _
+    | _ =>
+      refine .inl ⟨by simp only [preProgress, hph], ?_⟩
+      simp only [step, hph]; exact ⟨rfl, rfl, rfl, id⟩
+  | connackNever =>
+    cases hph : w.phase with
+    | connackGate k =>
+      by_cases hct : w.cfg.connectTimeout = true
+      · obtain ⟨hf, hw⟩ := connectFailed_fr w k
+        refine .inr ⟨connectFailed w k, [], by simp only [preProgress, hph, hct, if_true], ?_, hf.retryQ,
+          by simpa using hf.taskQ, nonapp (fun r h => by cases h) (by simp), hf.sameW hw⟩
+        simp only [step, hph, hct, if_true]; exact SameQ.rfl' _
+      · refine .inl ⟨by simp only [preProgress, hph, hct, Bool.false_eq_true, if_false], ?_⟩
+        simp only [step, hph, hct, Bool.false_eq_true, if_false]; exact ⟨rfl, rfl, rfl, id⟩
+    | _ =>
+      refine .inl ⟨by simp only [preProgress, hph], ?_⟩
+      simp only [step, hph]; exact ⟨rfl, rfl, rfl, id⟩
+  | peerClose =>
+    cases hph : w.phase with
+    | up k =>
+      refine .inr ⟨kill w k, [], by simp only [preProgress, hph], ?_, (fr_kill w k).retryQ,
+        by simpa using (fr_kill w k).taskQ, nonapp (fun r h => by cases h) (by simp), (fr_kill w k).sameW (wk_kill w k)⟩
+      simp only [step, hph]; exact SameQ.rfl' _
+    | _ =>
+      refine .inl ⟨by simp only [preProgress, hph], ?_⟩
+      simp only [step, hph]; exact ⟨rfl, rfl, rfl, id⟩
+  | disconnect =>
+    by_cases hs : w.stopped = true
+    · refine .inl ⟨by simp [preProgress, hs], ?_⟩
+      simp only [step, hs, if_true]; exact ⟨rfl, rfl, rfl, id⟩
+    · refine .inr ⟨{ pushTask w .disconnect with stopped := true }, [.disconnect],
+        by simp only [preProgress, hs, Bool.false_eq_true, if_false], ?_, rfl, rfl,
+        nonapp (fun r h => by cases h) (by simp), rfl, id⟩
+      simp only [step, hs, Bool.false_eq_true, if_false]
+      exact sameQ_post _
+
+theorem apps_replicate_none (j : Nat) : apps (List.replicate j none) = [] := by
+  induction j with
+  | zero => rfl
+  | succ j ih => rw [List.replicate_succ, apps_cons, ih]; rfl
+
+theorem gStep_inv {w : World} {g : Gh} {n : Nat} (e : Ev) (h : GInv w g n) :
+    GInv (step w e) (gStep w g n e) (nextIdx n e) := by
+  unfold gStep
+  have hmono : n ≤ nextIdx n e := by cases e <;> simp [nextIdx]
+  rcases step_pre w e with ⟨hpre, hp⟩ | ⟨w1, ts, hpre, hs, hrq, htq, hts, _⟩
+  · rw [hpre]
+    exact ⟨h.core.mono hmono, by rw [hp.1]; exact h.lenT, by rw [hp.2.1]; exact h.lenR⟩
+  · rw [hpre]
+    simp only
+    have hlen : w1.taskQ.length - w.taskQ.length = ts.length := by rw [htq]; simp
+    rw [hlen]
+    have h1 : GInv w1 { g with tq := g.tq ++ List.replicate ts.length (evLab n e) } (nextIdx n e) := by
+      refine ⟨?_, ?_, by rw [hrq]; exact h.lenR⟩
+      · show Core (apps g.out) (apps g.rq ++ apps (g.tq ++ _)) _
+        by_cases he : ∃ r, e = .app r
+        · obtain ⟨r, rfl⟩ := he
+          rw [hts.1 r rfl]
+          simp only [List.length_singleton, List.replicate_one, apps_append, apps_single, Option.toList_some,
+            nextIdx, evLab, ← List.append_assoc]
+          exact h.core.push (Nat.le_refl _)
+        · have : evLab n e = none := by
+            cases e <;> first | rfl | exact absurd ⟨_, rfl⟩ he
+          rw [this, apps_append, apps_replicate_none, List.append_nil]
+          exact h.core.mono hmono
+      · show (g.tq ++ _).length = _
+        rw [htq]; simp [h.lenT]
+    have h2 := progress_ginv h1
+    exact ⟨h2.core, by rw [hs.1]; exact h2.lenT, by rw [hs.2.1]; exact h2.lenR⟩
+
+theorem gRun_inv : ∀ (evs : List Ev) (w : World) (g : Gh) (n : Nat), GInv w g n →
+    ∃ b, GInv (evs.foldl step w) (gRun evs w g n) b
+  | [], _, _, n, h => ⟨n, h⟩
+  | e :: rest, w, g, n, h => by
+    simp only [List.foldl_cons, gRun]
+    exact gRun_inv rest _ _ _ (gStep_inv e h)
+
+theorem init_ginv (s : Script) : GInv (init s) {} 0 := by
+  refine ⟨⟨?_, ?_, ?_, ?_, ?_⟩, rfl, rfl⟩ <;> simp [apps]
+
+theorem gExec_inv (s : Script) : ∃ b, GInv (exec s) (gExec s) b :=
+  gRun_inv s.evs (init s) {} 0 (init_ginv s)
+
+/-- attempts of the application's requests (all kinds), in wire order, are non-decreasing in the
+    submission index (retransmissions repeat an index) -/
+theorem gatt_sorted (s : Script) : (apps (gExec s).out).Pairwise (· ≤ ·) := by
+  obtain ⟨b, h⟩ := gExec_inv s
+  exact h.core.attLe
+
+/-! ### the ghost and the wire log, whole run -/
+
+theorem all2_replicate_lib (reqs : List Req) (l : Lab) : ∀ (ts : List Task), (∀ t ∈ ts, ∀ r, t ≠ .req r) →
+    All2 (TaskOk reqs) (List.replicate ts.length l) ts
+  | [], _ => .nil
+  | t :: rest, h => by
+    rw [List.length_cons, List.replicate_succ]
+    exact .cons (fun r hr => absurd hr (h t List.mem_cons_self r))
+      (all2_replicate_lib reqs l rest (fun t' ht' => h t' (List.mem_cons_of_mem _ ht')))
+
+theorem gStep_winv {reqs : List Req} {w : World} {g : Gh} {n : Nat} (e : Ev) (h : WInv reqs w g)
+    (hreq : ∀ r, e = .app r → reqs[n]? = some r) : WInv reqs (step w e) (gStep w g n e) := by
+  unfold gStep
+  rcases step_pre w e with ⟨hpre, hp⟩ | ⟨w1, ts, hpre, hs, hrq, htq, hts, hw⟩
+  · rw [hpre]
+    exact ⟨by rw [hp.1]; exact h.okT, by rw [hp.2.1]; exact h.okR, by rw [hp.2.2.1]; exact h.wire, hp.2.2.2 h.cli⟩
+  · rw [hpre]
+    simp only
+    have hlen : w1.taskQ.length - w.taskQ.length = ts.length := by rw [htq]; simp
+    rw [hlen]
+    have hpush : All2 (TaskOk reqs) (List.replicate ts.length (evLab n e)) ts := by
+      by_cases he : ∃ r, e = .app r
+      · obtain ⟨r, rfl⟩ := he
+        rw [hts.1 r rfl]
+        refine .single ?_
+        intro r' hr'
+        cases hr'
+        show (reqs[n]?).map reqKey = some (reqKey r)
+        rw [hreq r rfl]; rfl
+      · exact all2_replicate_lib reqs _ ts (hts.2 (fun r hr => he ⟨r, hr⟩))
+    have h1 : WInv reqs w1 { g with tq := g.tq ++ List.replicate ts.length (evLab n e) } :=
+      ⟨by rw [htq]; exact h.okT.append hpush, by rw [hrq]; exact h.okR, by rw [hw.1]; exact h.wire, hw.2 h.cli⟩
+    have h2 := progress_winv h1
+    exact ⟨by rw [hs.1]; exact h2.okT, by rw [hs.2.1]; exact h2.okR, by rw [hs.2.2.1]; exact h2.wire,
+      hs.2.2.2 h2.cli⟩
+
+theorem appReqs_cons_app (r : Req) (rest : List Ev) : appReqs (.app r :: rest) = r :: appReqs rest := rfl
+
+theorem appReqs_cons_other (e : Ev) (rest : List Ev) (he : ∀ r, e ≠ .app r) :
+    appReqs (e :: rest) = appReqs rest := by
+  cases e <;> first | rfl | exact absurd rfl (he _)
+
+theorem gRun_winv (reqs : List Req) : ∀ (evs : List Ev) (w : World) (g : Gh) (n : Nat), WInv reqs w g →
+    (∀ j r, (appReqs evs)[j]? = some r → reqs[n + j]? = some r) →
+    WInv reqs (evs.foldl step w) (gRun evs w g n)
+  | [], _, _, _, h, _ => h
+  | e :: rest, w, g, n, h, hr => by
+    simp only [List.foldl_cons, gRun]
+    by_cases he : ∃ r, e = .app r
+    · obtain ⟨r, rfl⟩ := he
+      refine gRun_winv reqs rest _ _ _ (gStep_winv _ h (fun r' hr' => ?_)) (fun j r' hj => ?_)
+      · cases hr'
+        exact hr 0 r rfl
+      · have := hr (j + 1) r' (by rw [appReqs_cons_app]; simpa using hj)
+        simp only [nextIdx]
+        rw [show n + 1 + j = n + (j + 1) by omega]; exact this
+    · have he' : ∀ r, e ≠ .app r := fun r hr => he ⟨r, hr⟩
+      refine gRun_winv reqs rest _ _ _ (gStep_winv _ h (fun r' hr' => absurd hr' (he' r'))) (fun j r' hj => ?_)
+      have hn : nextIdx n e = n := by cases e <;> first | rfl | exact absurd rfl (he' _)
+      rw [hn]
+      exact hr j r' (by rw [appReqs_cons_other e rest he']; exact hj)
+
+theorem init_winv (reqs : List Req) (s : Script) : WInv reqs (init s) {} :=
+  ⟨.nil, .nil, .nil, fun k hk => by simp [init] at hk⟩
+
+/-- The ghost labels the request packets of the wire log one by one, in order: a packet labelled
+    `some i` carries the content of the application's `i`-th request, a packet labelled `none`
+    is a SUBSCRIBE with a single filter (the library's re-subscription). -/
+theorem gExec_wire (s : Script) : All2 (LabKey (appReqs s.evs)) (gExec s).out (wireKeys (exec s)) :=
+  (gRun_winv (appReqs s.evs) s.evs (init s) {} 0 (init_winv _ s) (fun j r hj => by simpa using hj)).wire
+
+/-- picking the elements at strictly increasing positions gives a subsequence -/
+theorem filterMap_getElem_sublist {α : Type} : ∀ (l : List α) (d : Nat) (is : List Nat),
+    is.Pairwise (· < ·) → (∀ i ∈ is, d ≤ i) → (is.filterMap (fun i => l[i - d]?)).Sublist l
+  | [], _, is, _, _ => by simp
+  | a :: t, d, [], _, _ => by simp
+  | a :: t, d, i :: is', hp, hd => by
+    rw [List.pairwise_cons] at hp
+    have hshift : ∀ js : List Nat, (∀ j ∈ js, d + 1 ≤ j) →
+        js.filterMap (fun j => (a :: t)[j - d]?) = js.filterMap (fun j => t[j - (d + 1)]?) := by
+      intro js
+      induction js with
+      | nil => intro _; rfl
+      | cons j js ih =>
+        intro hjs
+        have := hjs j List.mem_cons_self
+        rw [List.filterMap_cons, List.filterMap_cons, ih (fun j' hj' => hjs j' (List.mem_cons_of_mem _ hj')),
+          show j - d = (j - (d + 1)) + 1 by omega, List.getElem?_cons_succ]
+    have hrest : ∀ j ∈ is', d + 1 ≤ j := fun j hj => by
+      have := hp.1 j hj; have := hd i List.mem_cons_self; omega
+    by_cases hi : i = d
+    · subst hi
+      rw [List.filterMap_cons]
+      simp only [Nat.sub_self, List.getElem?_cons_zero]
+      rw [hshift is' hrest]
+      exact (filterMap_getElem_sublist t (i + 1) is' hp.2 hrest).cons_cons a
+    · have hall : ∀ j ∈ i :: is', d + 1 ≤ j := by
+        intro j hj
+        rcases List.mem_cons.1 hj with rfl | hj
+        · have := hd j List.mem_cons_self; omega
+        · exact hrest j hj
+      rw [hshift _ hall]
+      exact (filterMap_getElem_sublist t (d + 1) (i :: is') (List.pairwise_cons.2 hp) hall).cons a
 
 end Mqtt.C03
